@@ -82,6 +82,53 @@ def check(run, prog, tier):
                         "caller with the units switched, and restores them whenever the generator happens to be finished or "
                         "collected", minimum=5)
     rule_U17(run, prog)
+    run.rule("C05-U18", "the reciprocal unit is treated apart wherever the factor of a unit that is not known in advance is used", minimum=3)
+    rule_U18(run, prog)
+
+
+def rule_U18(run, prog):
+    """'... equals the exact conversion between the two units, for every pair of supported units': all energy units but one
+    are proportional to the internal unit; the wavelength ("nm") is reciprocal.  A routine that takes the factor of a unit
+    that is not known in advance (`conversion_facs_energy[u]`, u a variable) and multiplies or divides by it converts
+    wavelengths linearly - 12500 1/cm -> 4435 nm instead of 800 - unless it treats "nm" apart.  Every function that reads
+    the factor of a variable unit compares that unit with "nm" (the variable itself, or the expression it stands for)."""
+    rid = "C05-U18"
+    n = 0
+    for f in prog.all_functions():
+        if ".tests." in f.qualname or ".wizard." in f.qualname:
+            continue
+        keys = []
+        for x in walk_no_nested(f.node):
+            if isinstance(x, ast.Subscript) and isinstance(x.value, ast.Name) and x.value.id == "conversion_facs_energy" \
+                    and isinstance(x.ctx, ast.Load) and not isinstance(x.slice, ast.Constant):
+                keys.append(x)
+        if not keys:
+            continue
+        # names that stand for an expression (units = self.current_units["energy"])
+        alias = {}
+        for st in walk_no_nested(f.node):
+            if isinstance(st, ast.Assign) and len(st.targets) == 1 and isinstance(st.targets[0], ast.Name):
+                alias[st.targets[0].id] = norm(st.value)
+        tested = set()
+        for c in walk_no_nested(f.node):
+            if isinstance(c, ast.Compare) and any(isinstance(o, ast.Constant) and o.value == "nm" for o in [c.left] + c.comparators):
+                for o in [c.left] + c.comparators:
+                    if not isinstance(o, ast.Constant):
+                        tested.add(norm(o))
+                        if isinstance(o, ast.Name) and o.id in alias:
+                            tested.add(alias[o.id])
+        for k in keys:
+            n += 1
+            prog.consulted.add(f.relpath)
+            kt = norm(k.slice)
+            ok = kt in tested or (isinstance(k.slice, ast.Name) and alias.get(k.slice.id) in tested)
+            run.obligation(rid, f.short, ok, key="reciprocal-unit-apart:" + kt[:40],
+                           message="%s takes the conversion factor of the unit `%s` and never asks whether that unit is \"nm\": a "
+                                   "wavelength is inversely proportional to the energy, so a product or quotient with its factor is not "
+                                   "its conversion (12500 1/cm comes out as 4435 nm instead of 800 nm)" % (f.short, kt),
+                           loc=f.loc(k), sample={"unit": kt})
+    if n < 3:
+        raise AnalysisError("C05-U18: only %d reads of the factor of a variable unit found" % n)
 
 
 def generators_suspending_in(prog, ctx_names):
